@@ -41,6 +41,7 @@ type c08Case struct {
 	Algos   []int  `json:"algos"` // call history
 	Stream  []byte `json:"stream"`
 	Choices []int  `json:"short_read_choices,omitempty"`
+	Strings bool   `json:"render_enum_values_first,omitempty"`
 }
 
 // secretHistory runs a history of RandomSecret calls on one stream and checks every result.
@@ -56,6 +57,12 @@ func secretHistory(c c08Case, x *xplore.X) (obs, bad string) {
 	}
 	var keep []kept
 	for i, a := range c.Algos {
+		if c.Strings {
+			// rendering an enum value (logging) must not change what RandomSecret does with it
+			_ = otp.Algorithm(a).String()
+			_ = fmt.Sprint(otp.Algorithm(a), otp.Digits(a))
+			_ = otp.AlgorithmFromStr(otp.Algorithm(a).String())
+		}
 		before := rr.off
 		var s string
 		var err error
@@ -155,9 +162,12 @@ func c08(r *ev.Run) {
 		}
 		run("seed-stream", c08Case{Algos: []int{a}, Stream: filler(r.Seed, "c08", 251)})
 	}
-	// all 256 enum values
+	// all 256 enum values, plain and after the value has been rendered as text
 	for a := 0; a < 256; a++ {
 		run(fmt.Sprintf("algo=%d", a), c08Case{Algos: []int{a}, Stream: tag})
+	}
+	for a := 0; a < 256; a++ {
+		run(fmt.Sprintf("algo=%d after String()", a), c08Case{Algos: []int{a, a}, Stream: tag, Strings: true})
 	}
 	// call histories: all sequences of <= 3 calls over {SHA1, SHA256, SHA512, 3, 255} on one stream
 	alpha := []int{0, 1, 2, 3, 255}
@@ -165,6 +175,7 @@ func c08(r *ev.Run) {
 	hist = func(prefix []int) {
 		if len(prefix) > 0 {
 			run(fmt.Sprint("history ", prefix), c08Case{Algos: append([]int(nil), prefix...), Stream: filler(r.Seed, "c08h", 239)})
+			run(fmt.Sprint("history+strings ", prefix), c08Case{Algos: append([]int(nil), prefix...), Stream: filler(r.Seed, "c08h", 239), Strings: true})
 		}
 		if len(prefix) == 3 {
 			return
